@@ -116,6 +116,7 @@ type FuncVC struct {
 	closureCells []Term
 	errs         []string
 	withFrame    bool
+	isInit       bool
 	safety       bool
 	entryFacts   []Term
 }
@@ -525,7 +526,11 @@ func (vc *FuncVC) constTerm(v constant.Value, ty types.Type) Term {
 }
 
 func (vc *FuncVC) globalRef(v *types.Var) Term {
-	name := "g_" + mangle(v.Pkg().Path()+"."+v.Name())
+	return vc.globalRefNamed(v.Pkg().Path() + "." + v.Name())
+}
+
+func (vc *FuncVC) globalRefNamed(full string) Term {
+	name := "g_" + mangle(full)
 	if t, ok := vc.globals[name]; ok {
 		return t
 	}
@@ -556,7 +561,7 @@ func (vc *FuncVC) val(v ssa.Value) Term {
 	case *ssa.Const:
 		return vc.constTerm(x.Value, x.Type())
 	case *ssa.Global:
-		return vc.globalRef(x.Object().(*types.Var))
+		return vc.globalRefNamed(x.Pkg.Pkg.Path() + "." + x.Name())
 	case *ssa.Function:
 		return vc.funcValue(FuncKey(x))
 	case *ssa.Builtin:
